@@ -3054,6 +3054,15 @@ fn gen_backpressure(o: &mut Out, r: &mut Rng, d: &GDict, tier: &str, uid: &mut u
 fn gen_ctcp(o: &mut Out, r: &mut Rng, tier: &str, cuts: bool) {
     let thorough = tier == "thorough";
     let mut id = if cuts { 500 } else { 0 };
+    if cuts {
+        // a request that stays unanswered for half a minute of real time while the application goes on sending
+        o.case("tcp n=2 gap=31");
+        o.line("ctcp n=2 perm=0.1 eager=0 cut=- reset=0 id=499 gap=31");
+        if thorough {
+            o.case("tcp n=3 gap=65");
+            o.line("ctcp n=3 perm=2.0.1 eager=0 cut=- reset=0 id=498 gap=65");
+        }
+    }
     for n in 1..=5usize {
         let perms = permutations(n);
         for _ in 0..(if thorough { 24 } else { 5 }) {
